@@ -147,6 +147,19 @@ func VerifEvictL1() {
 	}
 }
 ''')
+addfile('adapters/redis/zz_verif_export.go', '''package redis
+
+import goredis "github.com/redis/go-redis/v9"
+
+// VerifGoRedisClient exposes the go-redis client of a cache created by NewConnectionClient (harness use
+// only; overlay-injected) so that a hook can turn every command into a scheduling point.
+func VerifGoRedisClient(c any) *goredis.Client {
+	if cl, ok := c.(*client); ok && cl.conn != nil {
+		return cl.conn.Client
+	}
+	return nil
+}
+''')
 addfile('common/zz_verif_export.go', '''package common
 
 // VerifResetOnIdle resets the process-global maintenance timers (harness use only; overlay-injected).
